@@ -388,7 +388,25 @@ class CFG:
         ]
 
     def stmt_nodes(self, typ=None) -> List[Node]:
-        return self.find(lambda n: n.ast is not None and n.kind != "branch" and (typ is None or isinstance(n.ast, typ)))
+        return self.find(lambda n: n.ast is not None and n.kind not in ("branch", "loop_exit") and (typ is None or isinstance(n.ast, typ)))
+
+    def node_of(self, target: ast.AST, originals_only: bool = True) -> Optional[Node]:
+        """The CFG node at which the given expression/statement is evaluated (own expressions only)."""
+        reach = self.reachable()
+        cands = []
+        for n in self.nodes:
+            if n.ast is None or n.kind in ("branch", "loop_exit", "entry", "exit", "raise_exit"):
+                continue
+            if originals_only and n.copy:
+                continue
+            for part in own_exprs(n.ast):
+                if part is target or any(x is target for x in _walk_no_defs(part)):
+                    cands.append(n)
+                    break
+        for n in cands:
+            if n.id in reach:
+                return n
+        return cands[0] if cands else None
 
     def dominated_by(self, n: int, d: int) -> bool:
         return d in self.dominators().get(n, set())
@@ -416,6 +434,14 @@ class CFG:
         for n in self.nodes:
             out.append(f"{n!r} -> {[(self.nodes[m].id, l) for m, l in self.succ[n.id]]}")
         return "\n".join(out)
+
+
+def _walk_no_defs(n: ast.AST):
+    yield n
+    for ch in ast.iter_child_nodes(n):
+        if isinstance(ch, (ast.FunctionDef, ast.AsyncFunctionDef, ast.Lambda, ast.ClassDef)):
+            continue
+        yield from _walk_no_defs(ch)
 
 
 def calls_in(node: ast.AST, skip_nested_defs: bool = True) -> List[ast.Call]:
